@@ -27,7 +27,7 @@ def Up.wf : Up → Bool
 def Item.wf : Item → Bool
   | .sq s => s.wf
   | .up u => u.wf
-  | .mat fd lin off => matShape lin off fd
+  | .mat fd lin off => matShape lin off fd && decide (fd ≤ off.length)
 
 /-- consecutive items fit: `fromdims` of each item is `todims` of the next -/
 def dimsOK : Chain → Bool
